@@ -122,7 +122,7 @@ def cmd_run(mid, tier="quick"):
     for ln in lines[:3]:
         print("   ", ln[:200])
     if verdict.startswith("error"):
-        print(out[-1500:])
+        print(out[-400:])
     return 0
 
 
